@@ -515,6 +515,8 @@ class Runner(Exec):
             return SV("optint", (ctx.fresh(name + "_none", z3.BoolSort()), ctx.fresh(name)))
         if v.k == "ref":
             return SV("ref", ctx.fresh(name), v.x)
+        if v.k == "optref":
+            return SV("optref", (ctx.fresh(name + "_none", z3.BoolSort()), ctx.fresh(name)), v.x)
         if v.k == "str":
             return SV("str", ctx.fresh(name))
         if v.k == "tuple":
